@@ -66,6 +66,13 @@ class M:
             b = _strip_casts(x.child('base'))
             if b is not None and is_slot_type(b.t, self.spec):
                 return lvalue_key(b), x.n
+        if x.k == 'MemberExpr' and not x.arrow and x.n:
+            # the slot addressed by an index cursor: items[i].field
+            b = _strip_casts(x.child('base'))
+            if b is not None and b.k == 'ArraySubscriptExpr':
+                bb, ii = _strip_casts(b.child('base') or b.c[0]), _strip_casts(b.child('idx') or b.c[1])
+                if self.is_items(bb) and ii is not None and ii.k == 'DeclRefExpr' and ii.dk == 'local':
+                    return 'I@' + lvalue_key(ii), x.n
         if x.k == 'DeclRefExpr' and x.dk == 'local' and lvalue_key(x) not in self.slots:
             key = lvalue_key(x)
             ds = [v.child('init') for v in self.fn.walk() if v.k == 'VarDecl' and 'v%d:%s' % (v.d, v.n) == key and v.child('init') is not None]
@@ -108,6 +115,8 @@ class M:
 
     # ---- cursor steps ----------------------------------------------------------------------------------
     def writes(self, key):
+        if key.startswith('I@'):
+            key = key[2:]
         out = []
         for x in self.fn.walk():
             if x.k == 'UnaryOperator' and x.op in ('++', '--', 'post++', 'post--') and lvalue_key(_strip_casts(x.child('sub'))) == key:
@@ -122,7 +131,11 @@ class M:
         return out
 
     def wrap_after(self, step, key):
-        """the IfStmt that wraps cursor `key` right after `step`: `if (S == END) S = items`, or None"""
+        """the IfStmt that wraps cursor `key` right after `step`: `if (S == END) S = items` (pointer cursor) or
+        `if (i == capacity) i = 0` (index cursor), or None"""
+        index = key.startswith('I@')
+        if index:
+            key = key[2:]
         # (a) the step is part of the wrap condition:  if (++S == END) S = items;
         y, prev = step.parent, step
         while y is not None and y.k in ('ImplicitCastExpr', 'ParenExpr', 'BinaryOperator') and not (y.k == 'BinaryOperator' and y.op in ('&&', '||', ',')):
@@ -162,11 +175,12 @@ class M:
                 e = _strip_casts(e.child('sub'))
             return e is not None and lvalue_key(e) == key
         other = r if is_cursor(l) else l if is_cursor(r) else None
-        if other is None or not self.is_end(other):
+        if other is None or not (self.lin(other) == {'this->capacity': 1} if index else self.is_end(other)):
             return None
         th = cand.child('then')
         sts = [th] if th.k != 'CompoundStmt' else [x for x in th.c if x is not None]
-        if len(sts) != 1 or not (is_assign(sts[0]) and sts[0].op == '=' and lvalue_key(_strip_casts(sts[0].child('lhs'))) == key and self.is_items(sts[0].child('rhs'))):
+        if len(sts) != 1 or not (is_assign(sts[0]) and sts[0].op == '=' and lvalue_key(_strip_casts(sts[0].child('lhs'))) == key and
+                                 (self.lin(sts[0].child('rhs')) == {} if index else self.is_items(sts[0].child('rhs')))):
             return None
         return cand
 
@@ -232,15 +246,32 @@ def _ret_bool(r):
 def check_get_slot(ctx, m, rule):
     f = m.fn
     rets = [r for r in f.walk() if r.k == 'ReturnStmt']
-    keys = {lvalue_key(_strip_casts(r.child('value'))) for r in rets if r.child('value') is not None}
-    if len(keys) != 1 or next(iter(keys)) not in m.slots:
+    keys = set()
+    for r in rets:
+        v = _strip_casts(r.child('value')) if r.child('value') is not None else None
+        if v is not None and v.k == 'BinaryOperator' and v.op == '+':
+            # an index cursor: return items + i
+            a, b = _strip_casts(v.child('lhs')), _strip_casts(v.child('rhs'))
+            ii = b if m.is_items(a) else a if m.is_items(b) else None
+            keys.add('I@' + lvalue_key(ii) if ii is not None and ii.k == 'DeclRefExpr' and ii.dk == 'local' else None)
+        else:
+            keys.add(lvalue_key(v) if v is not None else None)
+    if len(keys) != 1 or next(iter(keys)) is None or (next(iter(keys)) not in m.slots and not next(iter(keys)).startswith('I@')):
         raise AnalysisBroken('%s: does not return one slot cursor' % m.label)
     S = next(iter(keys))
-    decl = m.slots[S]
-    # start: items + (hash(key) % capacity)
-    init = _strip_casts(decl.child('init')) if decl is not None else None
     ok = False
     why = 'no initialiser'
+    if S.startswith('I@'):
+        dv = next((v for v in f.walk() if v.k == 'VarDecl' and 'v%d:%s' % (v.d, v.n) == S[2:]), None)
+        src = _strip_casts(dv.child('init')) if dv is not None and dv.child('init') is not None else None
+        if src is not None and src.k == 'BinaryOperator' and src.op == '%':
+            ok = any(c.k == 'CallExpr' and (c.callee or '').split('::')[-1] == 'hash' for c in src.child('lhs').walk()) and m.lin(src.child('rhs')) == {'this->capacity': 1}
+        why = 'index starts at `%s`' % (src.text()[:60] if src is not None else '?')
+        init = None
+    else:
+        decl = m.slots[S]
+        # start: items + (hash(key) % capacity)
+        init = _strip_casts(decl.child('init')) if decl is not None else None
     if init is not None and init.k == 'BinaryOperator' and init.op == '+':
         base, idx = init.child('lhs'), _strip_casts(init.child('rhs'))
         if not m.is_items(base):
